@@ -4,7 +4,7 @@
    passing check makes the shortcut return exactly what the general decoder returns; a failing check runs the general decoder. *)
 From Coq Require Import String NArith ZArith List.
 From Pq Require Import Base.Bytes Base.ListX Codec.Varint Codec.Hybrid Format.Phys Format.Meta Format.Page Impl.WLevels Impl.RPages Impl.RSelf
-                       Impl.RCat Proofs.WChunkProofs Proofs.RGuardProofs.
+                       Impl.RCat Impl.RAlias Proofs.WChunkProofs Proofs.RGuardProofs Proofs.RAliasProofs.
 Import ListNotations.
 Open Scope N_scope.
 
@@ -54,3 +54,15 @@ Theorem C03_selfmade_irrelevant_v2_cat_partial : forall decompress ak cd codec h
   RCat.rd_page_v2_cat decompress true ak cd codec h usize csize payload = RCat.rd_page_v2_cat decompress false ak cd codec h usize csize payload.
 Proof. exact rd_page_v2_cat_selfmade_irrelevant. Qed.
 Print Assumptions C03_selfmade_irrelevant_v2_cat_partial.
+
+(* ---- buffer lifetime (Impl/RAlias.v): the dictionary of a chunk is a view of the buffer its page was decoded into ---- *)
+Theorem C03_fresh_buffers_keep_dictionary : forall kinds dict,
+  match dict with Some (RAlias.Shared _) => False | _ => True end ->
+  RAlias.dict_intact dict (map (fun k => (k, RAlias.Fresh)) kinds) = true.
+Proof. exact RAliasProofs.fresh_buffers_keep_dictionary. Qed.
+Print Assumptions C03_fresh_buffers_keep_dictionary.
+
+Theorem C03_shared_buffer_refuted : forall f,
+  RAlias.dict_intact None (map (fun k => (k, RAlias.origin_of [f])) [RAlias.KDict; RAlias.KData]) = false.
+Proof. exact RAliasProofs.shared_buffer_refuted. Qed.
+Print Assumptions C03_shared_buffer_refuted.
